@@ -15,7 +15,7 @@ import (
 func init() {
 	Registry["C10"] = C10
 	Metas["C10"] = Meta{
-		Explanation: "Decides the structural clauses of C10: (H1) every found-path of the lock-free readers and of the compute core (hit under lock, call of the user function with loaded=true) is dominated by the true edge of a Go == between the stored key and the lookup key - a hash-byte or top-hash match alone is never a hit, so colliding keys cannot alias; (H2) every call of the runtime type-hash primitive receives a pair (type descriptor of X, pointer to a variable of static type X) for one and the same X: descriptors are traced to the type word of an interface built from a value of static non-interface type X or to the data word of a reflect.Type describing X, pointers to the address of a variable of type X; the data word of an interface header is NOT accepted as a pointer to the dynamic value (for pointer-shaped dynamic types it is the value itself) - this is what makes interface-kinded, pointer, nil and padded keys hash like == compares; (H3) the byte-wise memory hash is used only for strings, with the data pointer and length of one and the same string - never for generic keys (+0/-0, padding, nested strings would break ==), and a hash function for generic keys reads the key's raw bits (an unsafe integer reinterpretation) only when it is handed out under reflect.Kind tests for kinds whose == is bit equality (booleans, integers, pointers, channels); (H4) the hash that selects the root bucket and the bucket-local byte is the map's hasher applied to the lookup key with the attempt's table seed, and the resize copy re-hashes the stored key with the map's own hasher; (H5) no explicit panic is reachable from the public API (each is in a branch that is dead under every constant mode, or guarded by a flag that is never set); (H6, H7) slot writes pair a bucket with its own index and published entries are never rewritten (C03/C04 P14, P2); (H8) an entry stays reachable under its key: a bucket's packed hash bits are rewritten from that bucket's own word and the lock-free lookup reports a key absent only at the end of the chain (C03/C04 P10, P11). NOT decided: correctness of the runtime's typehash itself; NaN keys (excluded by the property).",
+		Explanation: "Decides the structural clauses of C10: (H1) every found-path of the lock-free readers and of the compute core (hit under lock, call of the user function with loaded=true) is dominated by the true edge of a Go == between the stored key and the lookup key - a hash-byte or top-hash match alone is never a hit, so colliding keys cannot alias; (H2) every call of the runtime type-hash primitive receives a pair (type descriptor of X, pointer to a variable of static type X) for one and the same X: descriptors are traced to the type word of an interface built from a value of static non-interface type X or to the data word of a reflect.Type describing X, pointers to the address of a variable of type X; the data word of an interface header is NOT accepted as a pointer to the dynamic value (for pointer-shaped dynamic types it is the value itself) - this is what makes interface-kinded, pointer, nil and padded keys hash like == compares; (H3) the byte-wise memory hash is used only for strings, with the data pointer and length of one and the same string - never for generic keys (+0/-0, padding, nested strings would break ==), and a hash function for generic keys reads the key's raw bits (an unsafe integer reinterpretation) only when it is handed out under reflect.Kind tests for kinds whose == is bit equality (booleans, integers, pointers, channels); (H4) the hash that selects the root bucket and the bucket-local byte - in Load, the compute core and any other method that selects a bucket by key - is the map's hasher applied to the lookup key with the attempt's table seed, and the resize copy re-hashes the stored key with the map's own hasher; (H5) no explicit panic is reachable from the public API (each is in a branch that is dead under every constant mode, or guarded by a flag that is never set); (H6, H7) slot writes pair a bucket with its own index and published entries are never rewritten (C03/C04 P14, P2); (H8) an entry stays reachable under its key: a bucket's packed hash bits are rewritten from that bucket's own word and the lock-free lookup reports a key absent only at the end of the chain (C03/C04 P10, P11). NOT decided: correctness of the runtime's typehash itself; NaN keys (excluded by the property).",
 		Rule:        "one obligation per (rule, call site | exit | panic site); non-trivial = decided from value provenance traces, dominance or explored core paths",
 		Assumptions: []string{"runtime.typehash(t, p, seed) hashes the value of type t stored at p consistently with == (as the builtin map does)"},
 	}
@@ -591,10 +591,87 @@ func nonInterfaceGuard(in ssa.Instruction) bool {
 
 // ---- H4: what is hashed, with which function and seed ----
 
+// hashCallOf: the call (key, seed uint64) in the backward slice of a bucket index, if any.
+func hashCallOf(idx ssa.Value) *ssa.Call {
+	var hcall *ssa.Call
+	seen := map[ssa.Value]bool{}
+	var walk func(v ssa.Value, d int)
+	walk = func(v ssa.Value, d int) {
+		if v == nil || seen[v] || d > 10 || hcall != nil {
+			return
+		}
+		seen[v] = true
+		switch x := v.(type) {
+		case *ssa.BinOp:
+			walk(x.X, d+1)
+			walk(x.Y, d+1)
+		case *ssa.Convert:
+			walk(x.X, d+1)
+		case *ssa.Call:
+			if core.IsBuiltinCall(x) != "" {
+				return
+			}
+			if len(x.Call.Args) == 2 && !x.Call.IsInvoke() {
+				// candidate hash call: (key, seed)
+				if b, isB := x.Call.Args[1].Type().Underlying().(*types.Basic); isB && b.Kind() == types.Uint64 {
+					hcall = x
+					return
+				}
+			}
+			for _, a := range x.Call.Args {
+				walk(a, d+1)
+			}
+		}
+	}
+	walk(idx, 0)
+	return hcall
+}
+
+// rootSelectors: the functions in which a root bucket is selected by key - the lock-free reader, the compute core and
+// the copy, plus (extra) any other method of the map reachable from the API that indexes a bucket array with a value
+// derived from a hash call: a second reader, a fast path, a new operation.
+func rootSelectors(r *Run, mm *core.MapModel) ([]*ssa.Function, map[*ssa.Function]bool) {
+	base := []*ssa.Function{mm.Methods["Load"], mm.Core, mm.Copy}
+	isBase := map[*ssa.Function]bool{}
+	var out []*ssa.Function
+	for _, f := range base {
+		if f != nil {
+			isBase[f] = true
+			out = append(out, f)
+		}
+	}
+	extra := map[*ssa.Function]bool{}
+	reach := apiReachable(r)
+	for _, f := range r.P.Funcs {
+		if isBase[f] || !reach[f] || f.Blocks == nil || f.Pkg != r.P.Xsync || f.Signature.Recv() == nil || core.NamedOf(f.Signature.Recv().Type()) != mm.Name {
+			continue
+		}
+		hashed := false
+		core.Instrs(f, func(in ssa.Instruction) {
+			ia, ok := in.(*ssa.IndexAddr)
+			if !ok || !isBucketType(r, elemOf(ia.Type())) {
+				return
+			}
+			if _, isSlice := ia.X.Type().Underlying().(*types.Slice); !isSlice {
+				return
+			}
+			if hashCallOf(ia.Index) != nil {
+				hashed = true
+			}
+		})
+		if hashed {
+			extra[f] = true
+			out = append(out, f)
+		}
+	}
+	return out, extra
+}
+
 func c10H4(r *Run, rep *core.Report) {
 	n := 0
 	for _, mm := range r.M.Maps {
-		for _, f := range []*ssa.Function{mm.Methods["Load"], mm.Core, mm.Copy} {
+		sel, extra := rootSelectors(r, mm)
+		for _, f := range sel {
 			rep.Fn(fn(f))
 			core.Instrs(f, func(in ssa.Instruction) {
 				ia, ok := in.(*ssa.IndexAddr)
@@ -605,37 +682,10 @@ func c10H4(r *Run, rep *core.Report) {
 					return
 				}
 				// find the hash call in the backward slice of the index
-				var hcall *ssa.Call
-				seen := map[ssa.Value]bool{}
-				var walk func(v ssa.Value, d int)
-				walk = func(v ssa.Value, d int) {
-					if v == nil || seen[v] || d > 10 || hcall != nil {
-						return
-					}
-					seen[v] = true
-					switch x := v.(type) {
-					case *ssa.BinOp:
-						walk(x.X, d+1)
-						walk(x.Y, d+1)
-					case *ssa.Convert:
-						walk(x.X, d+1)
-					case *ssa.Call:
-						if core.IsBuiltinCall(x) != "" {
-							return
-						}
-						if len(x.Call.Args) == 2 && !x.Call.IsInvoke() {
-							// candidate hash call: (key, seed)
-							if b, isB := x.Call.Args[1].Type().Underlying().(*types.Basic); isB && b.Kind() == types.Uint64 {
-								hcall = x
-								return
-							}
-						}
-						for _, a := range x.Call.Args {
-							walk(a, d+1)
-						}
-					}
+				hcall := hashCallOf(ia.Index)
+				if hcall == nil && extra[f] {
+					return // a bucket picked by position (a scan), not by key
 				}
-				walk(ia.Index, 0)
 				n++
 				cons := fn(f) + " hashed key"
 				if hcall == nil {
